@@ -1,0 +1,71 @@
+//go:build verif
+
+// Package simhook holds the seams a deterministic simulator uses to own
+// scheduling, crash points and I/O faults inside spok.
+//
+// With the "verif" build tag the functions forward to function variables
+// which are nil by default, so even a tagged build behaves like production
+// until a harness installs them.
+package simhook
+
+import "os"
+
+// Enabled reports whether the simulation hooks are compiled in.
+const Enabled = true
+
+// Function variables installed by a harness; nil means "no-op".
+var (
+	YieldFn     func(site, detail string)
+	PointFn     func(site, detail string)
+	OpenFn      func(f *os.File, err error, path string) (*os.File, error)
+	ReadErrFn   func(err error, path string) error
+	WriteFileFn func(site, path string, data []byte, perm os.FileMode) (bool, error)
+	RemoveFn    func(site, path string) error
+)
+
+// Yield marks a scheduling point (before a channel operation or a wait).
+func Yield(site, detail string) {
+	if YieldFn != nil {
+		YieldFn(site, detail)
+	}
+}
+
+// Point marks a crash point or a step counter.
+func Point(site, detail string) {
+	if PointFn != nil {
+		PointFn(site, detail)
+	}
+}
+
+// Open lets a simulator replace the outcome of an os.Open.
+func Open(f *os.File, err error, path string) (*os.File, error) {
+	if OpenFn != nil {
+		return OpenFn(f, err, path)
+	}
+	return f, err
+}
+
+// ReadErr lets a simulator replace the outcome of reading a file.
+func ReadErr(err error, path string) error {
+	if ReadErrFn != nil {
+		return ReadErrFn(err, path)
+	}
+	return err
+}
+
+// WriteFile lets a simulator take over a whole-file write; done == false
+// means "not handled, carry on with the real write".
+func WriteFile(site, path string, data []byte, perm os.FileMode) (done bool, err error) {
+	if WriteFileFn != nil {
+		return WriteFileFn(site, path, data, perm)
+	}
+	return false, nil
+}
+
+// Remove lets a simulator veto or fail a removal before it happens.
+func Remove(site, path string) error {
+	if RemoveFn != nil {
+		return RemoveFn(site, path)
+	}
+	return nil
+}
